@@ -32,7 +32,11 @@ CLAIMED["C01"] = dict(
         "and characters, closed under the global context. Tie to the code: exhaustive short strings through the real parse_line / "
         "redirection parser vs the extracted model, the real from_line on the property's domain (3 styles x all texts up to length "
         "2 (3) x 6 positions + random lists of 0..6 arguments) with the property oracle on the implementation's plan, and argv seen "
-        "by a helper through cicada -c.",
+        "by a helper through cicada -c (also in a world where an alias is defined: layer L2w). Round 9: the model's matchers for "
+        "the regexes of parse_line / tokens_to_redirections / drain_env_tokens / is_arithmetic are proved equal to the regex ASTs "
+        "regenerated from the source on every run (C01_is_an_env_is_source_regex, C01_split_env_is_source_regex, "
+        "C01_redir_fd_is_source_regex, C01_redir_gt_is_source_regex, C01_redir_ptn1_is_source_regex, "
+        "C01_redir_ptn2_is_source_regex, C01_is_arithmetic_is_source_regex).",
    note="Trusted: Coq kernel, extraction, drivers, tools/tables2coq.py (Unicode Nd table), tools/regex2coq.py (regex ASTs of the "
         "expansion gates). External behaviour (variables, aliases, glob, command output) is a World record of oracles the theorems "
         "quantify over. In correspondence layer L1c the implementation's own expansion output feeds the model planner (the expansion "
